@@ -1,9 +1,11 @@
 (* SrcTieC09.v — the SYNTACTIC source tie of C09.  gen/SrcNormals.v is regenerated on every run by
    translate/tr_C09_normals.py from the clang AST of src/pointset/algorithms/NormalAndCurvatureEstimation.cpp. *)
-From Coq Require Import ZArith List Bool Lia.
-From Romea Require Import Num NormalsModel SrcEigen SrcNormalsLib.
+From Coq Require Import Reals ZArith List Bool Lia Lra.
+From Romea Require Import Num NumR NormalsModel NormalsProofs SrcEigen SrcNormalsLib.
 From Romea.gen Require Import SrcNormals.
 Import ListNotations.
+
+Ltac destruct_tuples := repeat match goal with st : (_ * _)%type |- _ => destruct st end.
 
 Section Tie.
 Context {T : Type} (N : NumOps T).
@@ -56,7 +58,6 @@ Ltac proj_of c tup st :=
   | (?rest, _) => proj_of c rest constr:(fst st)
   | c => st
   end.
-Ltac destruct_tuples := repeat match goal with st : (_ * _)%type |- _ => destruct st end.
 
 (* goal: c = fold_left H (zrange k) s  where EC : fold_left G (zrange k) init = (.., c, ..) : the two loops run in lock step *)
 Ltac entry_tie EC points :=
@@ -419,6 +420,184 @@ Proof.
   compute_tie @src_compute_kd_ncr_H3 (tie_plane_H3 eig kd_find) (@src_flip_H3) tie_flip_H3 l4 3%nat 4%nat eig kd_find kd points k size Hsz Hshape.
 Qed.
 
+Lemma tie_compute_n_V2 (kd_find : K -> T * T -> Z -> list Z) kd_build points size normals k nbi0 es0 a0 a1 v00 v01 v10 v11 :
+  src_compute_n_V2 N kd_find kd_build eig points size normals k nbi0 es0 a0 a1 v00 v01 v10 v11 =
+  src_compute_kd_n_V2 N kd_find eig points size (kd_build size points) normals k nbi0 es0 a0 a1 v00 v01 v10 v11.
+Proof.
+  unfold src_compute_n_V2.
+  destruct (src_compute_kd_n_V2 N kd_find eig points size (kd_build size points) normals k nbi0 es0 a0 a1 v00 v01 v10 v11) as [? ?]; destruct_tuples; reflexivity.
+Qed.
+Lemma tie_compute_nc_V2 (kd_find : K -> T * T -> Z -> list Z) kd_build points size normals curvatures k nbi0 es0 a0 a1 v00 v01 v10 v11 :
+  src_compute_nc_V2 N kd_find kd_build eig points size normals curvatures k nbi0 es0 a0 a1 v00 v01 v10 v11 =
+  src_compute_kd_nc_V2 N kd_find eig points size (kd_build size points) normals curvatures k nbi0 es0 a0 a1 v00 v01 v10 v11.
+Proof.
+  unfold src_compute_nc_V2.
+  destruct (src_compute_kd_nc_V2 N kd_find eig points size (kd_build size points) normals curvatures k nbi0 es0 a0 a1 v00 v01 v10 v11) as [? ?]; destruct_tuples; reflexivity.
+Qed.
+Lemma tie_compute_ncr_V2 (kd_find : K -> T * T -> Z -> list Z) kd_build points size normals curvatures reliab k nbi0 es0 a0 a1 v00 v01 v10 v11 :
+  src_compute_ncr_V2 N kd_find kd_build eig points size normals curvatures reliab k nbi0 es0 a0 a1 v00 v01 v10 v11 =
+  src_compute_kd_ncr_V2 N kd_find eig points size (kd_build size points) normals curvatures reliab k nbi0 es0 a0 a1 v00 v01 v10 v11.
+Proof.
+  unfold src_compute_ncr_V2.
+  destruct (src_compute_kd_ncr_V2 N kd_find eig points size (kd_build size points) normals curvatures reliab k nbi0 es0 a0 a1 v00 v01 v10 v11) as [? ?]; destruct_tuples; reflexivity.
+Qed.
+Lemma tie_compute_n_V3 (kd_find : K -> T * T * T -> Z -> list Z) kd_build points size normals k nbi0 es0 a0 a1 a2 v00 v01 v02 v10 v11 v12 v20 v21 v22 :
+  src_compute_n_V3 N kd_find kd_build eig points size normals k nbi0 es0 a0 a1 a2 v00 v01 v02 v10 v11 v12 v20 v21 v22 =
+  src_compute_kd_n_V3 N kd_find eig points size (kd_build size points) normals k nbi0 es0 a0 a1 a2 v00 v01 v02 v10 v11 v12 v20 v21 v22.
+Proof.
+  unfold src_compute_n_V3.
+  destruct (src_compute_kd_n_V3 N kd_find eig points size (kd_build size points) normals k nbi0 es0 a0 a1 a2 v00 v01 v02 v10 v11 v12 v20 v21 v22) as [? ?]; destruct_tuples; reflexivity.
+Qed.
+Lemma tie_compute_nc_V3 (kd_find : K -> T * T * T -> Z -> list Z) kd_build points size normals curvatures k nbi0 es0 a0 a1 a2 v00 v01 v02 v10 v11 v12 v20 v21 v22 :
+  src_compute_nc_V3 N kd_find kd_build eig points size normals curvatures k nbi0 es0 a0 a1 a2 v00 v01 v02 v10 v11 v12 v20 v21 v22 =
+  src_compute_kd_nc_V3 N kd_find eig points size (kd_build size points) normals curvatures k nbi0 es0 a0 a1 a2 v00 v01 v02 v10 v11 v12 v20 v21 v22.
+Proof.
+  unfold src_compute_nc_V3.
+  destruct (src_compute_kd_nc_V3 N kd_find eig points size (kd_build size points) normals curvatures k nbi0 es0 a0 a1 a2 v00 v01 v02 v10 v11 v12 v20 v21 v22) as [? ?]; destruct_tuples; reflexivity.
+Qed.
+Lemma tie_compute_ncr_V3 (kd_find : K -> T * T * T -> Z -> list Z) kd_build points size normals curvatures reliab k nbi0 es0 a0 a1 a2 v00 v01 v02 v10 v11 v12 v20 v21 v22 :
+  src_compute_ncr_V3 N kd_find kd_build eig points size normals curvatures reliab k nbi0 es0 a0 a1 a2 v00 v01 v02 v10 v11 v12 v20 v21 v22 =
+  src_compute_kd_ncr_V3 N kd_find eig points size (kd_build size points) normals curvatures reliab k nbi0 es0 a0 a1 a2 v00 v01 v02 v10 v11 v12 v20 v21 v22.
+Proof.
+  unfold src_compute_ncr_V3.
+  destruct (src_compute_kd_ncr_V3 N kd_find eig points size (kd_build size points) normals curvatures reliab k nbi0 es0 a0 a1 a2 v00 v01 v02 v10 v11 v12 v20 v21 v22) as [? ?]; destruct_tuples; reflexivity.
+Qed.
+Lemma tie_compute_n_H2 (kd_find : K -> T * T * T -> Z -> list Z) kd_build points size normals k nbi0 es0 a0 a1 v00 v01 v10 v11 :
+  src_compute_n_H2 N kd_find kd_build eig points size normals k nbi0 es0 a0 a1 v00 v01 v10 v11 =
+  src_compute_kd_n_H2 N kd_find eig points size (kd_build size points) normals k nbi0 es0 a0 a1 v00 v01 v10 v11.
+Proof.
+  unfold src_compute_n_H2.
+  destruct (src_compute_kd_n_H2 N kd_find eig points size (kd_build size points) normals k nbi0 es0 a0 a1 v00 v01 v10 v11) as [? ?]; destruct_tuples; reflexivity.
+Qed.
+Lemma tie_compute_nc_H2 (kd_find : K -> T * T * T -> Z -> list Z) kd_build points size normals curvatures k nbi0 es0 a0 a1 v00 v01 v10 v11 :
+  src_compute_nc_H2 N kd_find kd_build eig points size normals curvatures k nbi0 es0 a0 a1 v00 v01 v10 v11 =
+  src_compute_kd_nc_H2 N kd_find eig points size (kd_build size points) normals curvatures k nbi0 es0 a0 a1 v00 v01 v10 v11.
+Proof.
+  unfold src_compute_nc_H2.
+  destruct (src_compute_kd_nc_H2 N kd_find eig points size (kd_build size points) normals curvatures k nbi0 es0 a0 a1 v00 v01 v10 v11) as [? ?]; destruct_tuples; reflexivity.
+Qed.
+Lemma tie_compute_ncr_H2 (kd_find : K -> T * T * T -> Z -> list Z) kd_build points size normals curvatures reliab k nbi0 es0 a0 a1 v00 v01 v10 v11 :
+  src_compute_ncr_H2 N kd_find kd_build eig points size normals curvatures reliab k nbi0 es0 a0 a1 v00 v01 v10 v11 =
+  src_compute_kd_ncr_H2 N kd_find eig points size (kd_build size points) normals curvatures reliab k nbi0 es0 a0 a1 v00 v01 v10 v11.
+Proof.
+  unfold src_compute_ncr_H2.
+  destruct (src_compute_kd_ncr_H2 N kd_find eig points size (kd_build size points) normals curvatures reliab k nbi0 es0 a0 a1 v00 v01 v10 v11) as [? ?]; destruct_tuples; reflexivity.
+Qed.
+Lemma tie_compute_n_H3 (kd_find : K -> T * T * T * T -> Z -> list Z) kd_build points size normals k nbi0 es0 a0 a1 a2 v00 v01 v02 v10 v11 v12 v20 v21 v22 :
+  src_compute_n_H3 N kd_find kd_build eig points size normals k nbi0 es0 a0 a1 a2 v00 v01 v02 v10 v11 v12 v20 v21 v22 =
+  src_compute_kd_n_H3 N kd_find eig points size (kd_build size points) normals k nbi0 es0 a0 a1 a2 v00 v01 v02 v10 v11 v12 v20 v21 v22.
+Proof.
+  unfold src_compute_n_H3.
+  destruct (src_compute_kd_n_H3 N kd_find eig points size (kd_build size points) normals k nbi0 es0 a0 a1 a2 v00 v01 v02 v10 v11 v12 v20 v21 v22) as [? ?]; destruct_tuples; reflexivity.
+Qed.
+Lemma tie_compute_nc_H3 (kd_find : K -> T * T * T * T -> Z -> list Z) kd_build points size normals curvatures k nbi0 es0 a0 a1 a2 v00 v01 v02 v10 v11 v12 v20 v21 v22 :
+  src_compute_nc_H3 N kd_find kd_build eig points size normals curvatures k nbi0 es0 a0 a1 a2 v00 v01 v02 v10 v11 v12 v20 v21 v22 =
+  src_compute_kd_nc_H3 N kd_find eig points size (kd_build size points) normals curvatures k nbi0 es0 a0 a1 a2 v00 v01 v02 v10 v11 v12 v20 v21 v22.
+Proof.
+  unfold src_compute_nc_H3.
+  destruct (src_compute_kd_nc_H3 N kd_find eig points size (kd_build size points) normals curvatures k nbi0 es0 a0 a1 a2 v00 v01 v02 v10 v11 v12 v20 v21 v22) as [? ?]; destruct_tuples; reflexivity.
+Qed.
+Lemma tie_compute_ncr_H3 (kd_find : K -> T * T * T * T -> Z -> list Z) kd_build points size normals curvatures reliab k nbi0 es0 a0 a1 a2 v00 v01 v02 v10 v11 v12 v20 v21 v22 :
+  src_compute_ncr_H3 N kd_find kd_build eig points size normals curvatures reliab k nbi0 es0 a0 a1 a2 v00 v01 v02 v10 v11 v12 v20 v21 v22 =
+  src_compute_kd_ncr_H3 N kd_find eig points size (kd_build size points) normals curvatures reliab k nbi0 es0 a0 a1 a2 v00 v01 v02 v10 v11 v12 v20 v21 v22.
+Proof.
+  unfold src_compute_ncr_H3.
+  destruct (src_compute_kd_ncr_H3 N kd_find eig points size (kd_build size points) normals curvatures reliab k nbi0 es0 a0 a1 a2 v00 v01 v02 v10 v11 v12 v20 v21 v22) as [? ?]; destruct_tuples; reflexivity.
+Qed.
 End Compute.
 
 End Tie.
+
+(* ---------------------------------------------------------------- the real dictionary *)
+Lemma NormLits_R : NormLits ROps.
+Proof. split; [reflexivity|]. intros x. cbn. lra. Qed.
+
+Lemma contract_shape dim C r : (0 < dim)%nat -> eig_contract dim C r -> eig_shape dim r.
+Proof. intros Hd (H1 & _ & H3 & _). split; [exact H1|apply H3; exact Hd]. Qed.
+
+(* the normals written by the generated compute() are unit and face the sensor (stated on the generated terms) *)
+Section Corollary.
+Context {K : Type} (eig : list (list R) -> list R * list (list R)).
+Local Open Scope R_scope.
+
+Lemma src_normals_unit_facing_V2 (kd_find : K -> R * R -> Z -> list Z) points size kd normals curvatures reliab k nbi0 es0 a0 a1 v00 v01 v10 v11 :
+  (0 <= k)%Z -> (0 <= size)%Z -> (forall p, length (kd_find kd p k) = Z.to_nat k) ->
+  (forall j, (0 <= j < size)%Z ->
+     let C := covariance ROps 2 2 (map (fun i => l2 (points i)) (kd_find kd (points j) k)) in eig_contract 2 C (eig C)) ->
+  let '(nrm, cv, rl, _, _, _, _, _, _, _, _) :=
+    src_compute_kd_ncr_V2 ROps kd_find eig points size kd normals curvatures reliab k nbi0 es0 a0 a1 v00 v01 v10 v11 in
+  forall j, (0 <= j < size)%Z ->
+    let n := firstn 2 (l2 (nrm j)) in
+    vdot ROps n n = 1 /\ vdot ROps n (firstn 2 (l2 (points j))) <= 0.
+Proof.
+  intros Hk Hsz Hkd Hc.
+  pose proof (tie_compute_kd_ncr_V2 ROps NormLits_R eig kd_find points size kd normals curvatures reliab k nbi0 es0 a0 a1 v00 v01 v10 v11 Hk Hsz Hkd
+                (fun j Hj => contract_shape 2 _ _ ltac:(lia) (Hc j Hj))) as Ht.
+  destruct (src_compute_kd_ncr_V2 ROps kd_find eig points size kd normals curvatures reliab k nbi0 es0 a0 a1 v00 v01 v10 v11) as [? ?]; destruct_tuples.
+  intros j Hj. destruct (Ht j) as [Ht1 _]. specialize (Ht1 Hj). cbv zeta in Ht1. injection Ht1 as Q1 Q2 Q3. rewrite Q1.
+  cbv zeta. split.
+  - apply normal_unit; [left; reflexivity|exact (Hc j Hj)].
+  - apply normal_faces_sensor; [left; reflexivity|exact (Hc j Hj)].
+Qed.
+
+Lemma src_normals_unit_facing_V3 (kd_find : K -> R * R * R -> Z -> list Z) points size kd normals curvatures reliab k nbi0 es0 a0 a1 a2 v00 v01 v02 v10 v11 v12 v20 v21 v22 :
+  (0 <= k)%Z -> (0 <= size)%Z -> (forall p, length (kd_find kd p k) = Z.to_nat k) ->
+  (forall j, (0 <= j < size)%Z ->
+     let C := covariance ROps 3 3 (map (fun i => l3 (points i)) (kd_find kd (points j) k)) in eig_contract 3 C (eig C)) ->
+  let '(nrm, cv, rl, _, _, _, _, _, _, _, _, _, _, _, _, _, _) :=
+    src_compute_kd_ncr_V3 ROps kd_find eig points size kd normals curvatures reliab k nbi0 es0 a0 a1 a2 v00 v01 v02 v10 v11 v12 v20 v21 v22 in
+  forall j, (0 <= j < size)%Z ->
+    let n := firstn 3 (l3 (nrm j)) in
+    vdot ROps n n = 1 /\ vdot ROps n (firstn 3 (l3 (points j))) <= 0.
+Proof.
+  intros Hk Hsz Hkd Hc.
+  pose proof (tie_compute_kd_ncr_V3 ROps NormLits_R eig kd_find points size kd normals curvatures reliab k nbi0 es0 a0 a1 a2 v00 v01 v02 v10 v11 v12 v20 v21 v22 Hk Hsz Hkd
+                (fun j Hj => contract_shape 3 _ _ ltac:(lia) (Hc j Hj))) as Ht.
+  destruct (src_compute_kd_ncr_V3 ROps kd_find eig points size kd normals curvatures reliab k nbi0 es0 a0 a1 a2 v00 v01 v02 v10 v11 v12 v20 v21 v22) as [? ?]; destruct_tuples.
+  intros j Hj. destruct (Ht j) as [Ht1 _]. specialize (Ht1 Hj). cbv zeta in Ht1. injection Ht1 as Q1 Q2 Q3. rewrite Q1.
+  cbv zeta. split.
+  - apply normal_unit; [right; reflexivity|exact (Hc j Hj)].
+  - apply normal_faces_sensor; [right; reflexivity|exact (Hc j Hj)].
+Qed.
+
+Lemma src_normals_unit_facing_H2 (kd_find : K -> R * R * R -> Z -> list Z) points size kd normals curvatures reliab k nbi0 es0 a0 a1 v00 v01 v10 v11 :
+  (0 <= k)%Z -> (0 <= size)%Z -> (forall p, length (kd_find kd p k) = Z.to_nat k) ->
+  (forall j, (0 <= j < size)%Z ->
+     let C := covariance ROps 2 3 (map (fun i => l3 (points i)) (kd_find kd (points j) k)) in eig_contract 2 C (eig C)) ->
+  let '(nrm, cv, rl, _, _, _, _, _, _, _, _) :=
+    src_compute_kd_ncr_H2 ROps kd_find eig points size kd normals curvatures reliab k nbi0 es0 a0 a1 v00 v01 v10 v11 in
+  forall j, (0 <= j < size)%Z ->
+    let n := firstn 2 (l3 (nrm j)) in
+    vdot ROps n n = 1 /\ vdot ROps n (firstn 2 (l3 (points j))) <= 0.
+Proof.
+  intros Hk Hsz Hkd Hc.
+  pose proof (tie_compute_kd_ncr_H2 ROps NormLits_R eig kd_find points size kd normals curvatures reliab k nbi0 es0 a0 a1 v00 v01 v10 v11 Hk Hsz Hkd
+                (fun j Hj => contract_shape 2 _ _ ltac:(lia) (Hc j Hj))) as Ht.
+  destruct (src_compute_kd_ncr_H2 ROps kd_find eig points size kd normals curvatures reliab k nbi0 es0 a0 a1 v00 v01 v10 v11) as [? ?]; destruct_tuples.
+  intros j Hj. destruct (Ht j) as [Ht1 _]. specialize (Ht1 Hj). cbv zeta in Ht1. injection Ht1 as Q1 Q2 Q3. rewrite Q1.
+  cbv zeta. split.
+  - apply normal_unit; [left; reflexivity|exact (Hc j Hj)].
+  - apply normal_faces_sensor; [left; reflexivity|exact (Hc j Hj)].
+Qed.
+
+Lemma src_normals_unit_facing_H3 (kd_find : K -> R * R * R * R -> Z -> list Z) points size kd normals curvatures reliab k nbi0 es0 a0 a1 a2 v00 v01 v02 v10 v11 v12 v20 v21 v22 :
+  (0 <= k)%Z -> (0 <= size)%Z -> (forall p, length (kd_find kd p k) = Z.to_nat k) ->
+  (forall j, (0 <= j < size)%Z ->
+     let C := covariance ROps 3 4 (map (fun i => l4 (points i)) (kd_find kd (points j) k)) in eig_contract 3 C (eig C)) ->
+  let '(nrm, cv, rl, _, _, _, _, _, _, _, _, _, _, _, _, _, _) :=
+    src_compute_kd_ncr_H3 ROps kd_find eig points size kd normals curvatures reliab k nbi0 es0 a0 a1 a2 v00 v01 v02 v10 v11 v12 v20 v21 v22 in
+  forall j, (0 <= j < size)%Z ->
+    let n := firstn 3 (l4 (nrm j)) in
+    vdot ROps n n = 1 /\ vdot ROps n (firstn 3 (l4 (points j))) <= 0.
+Proof.
+  intros Hk Hsz Hkd Hc.
+  pose proof (tie_compute_kd_ncr_H3 ROps NormLits_R eig kd_find points size kd normals curvatures reliab k nbi0 es0 a0 a1 a2 v00 v01 v02 v10 v11 v12 v20 v21 v22 Hk Hsz Hkd
+                (fun j Hj => contract_shape 3 _ _ ltac:(lia) (Hc j Hj))) as Ht.
+  destruct (src_compute_kd_ncr_H3 ROps kd_find eig points size kd normals curvatures reliab k nbi0 es0 a0 a1 a2 v00 v01 v02 v10 v11 v12 v20 v21 v22) as [? ?]; destruct_tuples.
+  intros j Hj. destruct (Ht j) as [Ht1 _]. specialize (Ht1 Hj). cbv zeta in Ht1. injection Ht1 as Q1 Q2 Q3. rewrite Q1.
+  cbv zeta. split.
+  - apply normal_unit; [right; reflexivity|exact (Hc j Hj)].
+  - apply normal_faces_sensor; [right; reflexivity|exact (Hc j Hj)].
+Qed.
+
+End Corollary.
